@@ -160,7 +160,11 @@ def work(job):
             if t1 is None:
                 ok = t2 is None
             elif e1[t1][1] == "DONE":
-                ok = t2 is not None and e2[t2][1] == "DONE" and t2 in (t1, t1 + 1) and e1[:t1] == e2[:t1]
+                if t2 is None:
+                    # postponed beyond the last call of this history (no end() without EOF support)
+                    ok = t1 == len(e1) - 1 and e1[:t1] == e2[:t1]
+                else:
+                    ok = e2[t2][1] == "DONE" and t2 in (t1, t1 + 1) and e1[:t1] == e2[:t1]
             else:
                 ok = t2 == t1 and e2[t2][1] == e1[t1][1]
             if not ok:
